@@ -42,6 +42,9 @@ def c02(chk):
     tm = vlib.harness("replay-towermisc", table=vlib.write_json(os.path.join(vlib.WORK, "C02_towermisc.json"), tables))
     from props import replay_check
     replay_check(chk, "tower-misc", tm)
+    # the typed path (generated clients and servers): message, error status, its message and headers intact
+    ctables = vlib.tlc_tables("AnemoCodegen.tla", "AnemoCodegen.cfg")
+    replay_check(chk, "typed-pipeline", vlib.harness("replay-codegen", table=vlib.write_json(os.path.join(vlib.WORK, "C02_codegen.json"), ctables)))
     spec_mutant(chk, "propagate_overrides_handler", "AnemoTowerMisc.tla", "AnemoTowerMisc.cfg",
                 [("AnemoTowerMisc.tla", '  IF respHdr # "none" THEN [hdr |-> respHdr,', '  IF respHdr # "none" /\\ reqHdr = "none" THEN [hdr |-> respHdr,')], workers=1)
     spec_mutant(chk, "invoke_again", "AnemoRpc.tla", "MC_Rpc.cfg",
